@@ -834,7 +834,20 @@ func (e *Engine) describe(fn *ssa.Function) string { return fmt.Sprint(fn) }
 func (e *Engine) callOpaque(f *frame, fn *ssa.Function, args []Val) Val {
 	X := e.X
 	var flat []*smt.Term
-	for _, a := range args {
+	for ai, a := range args {
+		if ai == 0 && e.Prefix[fn] && len(args) >= 2 {
+			if u, ok := a.T.Underlying().(*types.Slice); ok && len(comps(u.Elem())) == 1 && len(args[1].C) == 1 && args[1].C[0].S == IntSort {
+				// declared prefix dependence: the function sees s[0:n] only, so its first argument is
+				// the comprehension "s[j] for j < n, zero beyond" (two calls on arrays that agree on
+				// the prefix are then equal by array extensionality)
+				e.UsedStd["assumed: "+fn.Name()+"(s, n, ...) depends only on s[0:n] (declared //@ prefix; true of its recursive definition, not machine-checked)"] = true
+				c := comps(u.Elem())[0]
+				h := e.heap(f.st, "arr:"+typeKey(u.Elem())+"/"+c.Suffix, c.Sort)
+				j := X.BVarFixed("pf", IntSort)
+				flat = append(flat, X.Lambda(j, X.Ite(X.Ult(j, args[1].C[0]), X.Select(X.Select(h, a.ref()), X.BVAdd(a.off(), j)), e.zeroOf(c.Sort))))
+				continue
+			}
+		}
 		switch u := a.T.Underlying().(type) {
 		case *types.Slice:
 			for _, c := range comps(u.Elem()) {
